@@ -19,20 +19,22 @@ def run(tier, replay=None):
                             timeout=1500).run()
         common.absorb(res, sh, prop_prefix='')
         st = common.merge_stats(sh.stats)
-        stats[fl] = {k: v for k, v in st.items() if k != 'samples'}
+        rh = set(st.get('random_history_hashes', []))
+        stats[fl] = {k: v for k, v in st.items() if k not in ('samples', 'random_history_hashes')}
+        stats[fl]['distinct_random_histories'] = len(rh)
         tot_h += st.get('histories', 0)
         res.samples += st.get('samples', [])[:3]
         if st.get('histories', 0) < total and not (sh.crashes or sh.hangs or sh.viols):
             res.inconclusive.append('%s: only %d of %d histories ran' % (fl, st.get('histories', 0), total))
         stats[fl]['exhaustive_space'] = nex
     res.evaluations = tot_h
-    res.distinct = stats.get('asan', {}).get('exhaustive_histories', 0) + nrandom
+    res.distinct = stats.get('asan', {}).get('exhaustive_histories', 0) + stats.get('asan', {}).get('distinct_random_histories', 0)
     res.rule = ('all mode-respecting call histories up to length %d over {open(missing), open(unwritable), open(in), open(out), open again, '
                 'read, write, close, destroy} (every prefix ends with destruction) plus %d random histories up to length 12, on input files of '
                 '0/1/9/10/11/50 objects; run twice: ASan+LSan build (double free, use after free, leaks) and plain build with the allocation '
                 'ledger (exact live-bytes delta per history); 5%% of histories under the schedule controller. Oracles: ownership ledger '
                 '(written objects freed exactly once by the library, read objects owned by the caller), live bytes and thread count back to '
-                'baseline, is_open/good/eof vs the reference state machine; distinct = exhaustive histories + random ones'
+                'baseline, is_open/good/eof vs the reference state machine, written objects present in the file; distinct = exhaustive histories + distinct (hashed) random ones'
                 % (elen, nrandom))
     res.extra = stats
     return res.finish()
